@@ -215,6 +215,11 @@ func init() {
 	vh.AddPart("C07", "lib-conc", "sim", vh.Opts{NoConfirm: true, Shards: 16, TimeoutS: 300, TimeoutSThorough: 3000},
 		func(e *vh.Env) []c07Conc {
 			var cs []c07Conc
+			// closed breaker, one failure older than the interval, then failures arriving together: the stale count is
+			// dropped once, the fresh failures all count (threshold 2 and 3)
+			for _, acts := range []string{"FF", "FFF", "FSF"} {
+				cs = append(cs, c07Conc{Kind: "window-reset", Actors: acts, MR: 1, ST: 1, Bound: -1, Max: e.Pick(1500, 20000)})
+			}
 			for _, kind := range []string{"boundary", "inside", "straggler", "old-trial"} {
 				for _, mr := range []int{1, 2} {
 					for _, st := range []int{1, 2} {
@@ -235,6 +240,10 @@ func init() {
 		func(e *vh.Env, c c07Conc, o *vh.Out) {
 			o.Need("schedules", "fn_executions")
 			firstSample := true
+			if c.Kind == "window-reset" {
+				c07WindowReset(e, c, o)
+				return
+			}
 			world := func(s *vh.Sched) func(*vh.Sched, vh.SchedResult) {
 				var journal []c07Ev
 				cb := circuitbreaker.NewCircuitBreaker(circuitbreaker.Settings{Name: "t", MaxRequests: uint32(c.MR), Interval: 10 * time.Second, Timeout: 30 * time.Second,
@@ -352,6 +361,58 @@ func init() {
 				o.Obs("cases_cut_by_schedule_budget", 1)
 			}
 		})
+}
+
+// c07WindowReset: all interleavings of failing (and one succeeding) requests that arrive together on a closed
+// breaker whose only recorded failure is older than the interval. The failures of this instant are consecutive
+// failures with no gap: once failure_threshold of them have been reported the breaker is open.
+func c07WindowReset(e *vh.Env, c c07Conc, o *vh.Out) {
+	nf := strings.Count(c.Actors, "F")
+	world := func(s *vh.Sched) func(*vh.Sched, vh.SchedResult) {
+		cb := circuitbreaker.NewCircuitBreaker(circuitbreaker.Settings{Name: "t", MaxRequests: 1, Interval: 10 * time.Second, Timeout: 30 * time.Second,
+			FailureThreshold: uint32(nf), SuccessThreshold: 1})
+		_ = cb.Execute(func() error { return errFail }) // the stale failure
+		time.Sleep(11 * time.Second)
+		ran := 0
+		for i := 0; i < len(c.Actors); i++ {
+			ok := c.Actors[i] == 'S'
+			s.Go(func() {
+				_ = cb.Execute(func() error {
+					ran++
+					o.Obs("fn_executions", 1)
+					vhYield("fn.run")
+					if ok {
+						return nil
+					}
+					return errFail
+				})
+			})
+		}
+		return func(s *vh.Sched, r vh.SchedResult) {
+			o.Obs("schedules", 1)
+			if r.Deadlock {
+				o.Viol("C07|conc|deadlock", fmt.Sprintf("%s actors=%s: actors stuck %v after trace %v", c.Kind, c.Actors, r.Stuck, s.Trace), map[string]any{"trace": s.Trace, "prefix": s.Choices})
+				return
+			}
+			// every actor that was admitted has reported; a success among them may legitimately come last or first,
+			// it does not separate failures of the same instant by more than the interval
+			if ran == len(c.Actors) && cb.State() != circuitbreaker.StateOpen {
+				o.Viol("C07|conc|not-open-after-threshold|window-reset", fmt.Sprintf("actors=%s: %d failures were reported at one instant (failure_threshold %d, the older failure had expired) and the breaker is %s; trace %v", c.Actors, nf, nf, cb.State(), s.Trace),
+					map[string]any{"trace": s.Trace, "prefix": s.Choices})
+			}
+		}
+	}
+	n, traces, complete := vh.Explore(world, c.Bound, c.Max, 400, 0)
+	o.Eval(int64(n))
+	for t := range traces {
+		o.Distinct(fmt.Sprintf("%v|%s", c, t))
+	}
+	o.Obs("distinct_interleavings", int64(len(traces)))
+	if complete {
+		o.Obs("cases_explored_completely", 1)
+	} else {
+		o.Obs("cases_cut_by_schedule_budget", 1)
+	}
 }
 
 // ------------------------------------------------------------ system level
